@@ -731,10 +731,28 @@ func protoGen(v *verifRun) {
 	}
 }
 
+// protoGenAll: the random scripts, then scripted two-session scenarios
+func protoGenAll(v *verifRun) {
+	protoGen(v)
+	hx := func(s string) string { return verifHex([]byte(s)) }
+	// an established peer relays updates about a third node — the newer one with "Connections": null — and then that
+	// node connects itself
+	for _, conns := range []*jv{jNull(), jObj(), nil} {
+		pre := []protoDgram{
+			protoRoute(protoUpdate("eve", "eve", jObj(jK("me", jNum("1"))))),
+			protoRoute(protoUpdate("xnode", "eve", jObj(jK("other", jNum("1"))), jK("UpdateID", jStr("id-x1")), jK("UpdateSequence", jNum("1")))),
+			protoRoute(protoUpdate("xnode", "eve", conns, jK("UpdateID", jStr("id-x2")), jK("UpdateSequence", jNum("2")))),
+		}
+		a := protoArgs{Self: hx("me"), Cost: 1, NodeCost: map[string]float64{}, Conns: []string{}, Pre: pre,
+			Script: []protoDgram{protoRoute(protoUpdate("xnode", "xnode", jObj(jK("me", jNum("1"))), jK("UpdateID", jStr("id-x3")), jK("UpdateSequence", jNum("3"))))}}
+		v.do(protoApply, "session", a)
+	}
+}
+
 func TestVerifProto(t *testing.T) {
 	v := verifOpen(t, "proto")
 	var cancel context.CancelFunc
 	wireNode, cancel = verifQuietNode("verif-wire-node", 30)
 	defer cancel()
-	v.runIsolated("TestVerifProto", protoApply, protoGen, 15*time.Second)
+	v.runIsolated("TestVerifProto", protoApply, protoGenAll, 15*time.Second)
 }
